@@ -8,7 +8,7 @@ import time
 
 sys.path.insert(0, os.path.dirname(os.path.abspath(__file__)))
 import vlib
-from engines import hs_server, hs_client, tcp_stream, codec, pending, srvlife, mux, chan, clientlife, blocking
+from engines import hs_server, hs_client, tcp_stream, codec, pending, srvlife, mux, chan, clientlife, blocking, transport
 
 # property -> list of (engine module, operator prefixes that decide it)
 PROPS = {
@@ -22,9 +22,9 @@ PROPS = {
     "C01": [(codec.C01, ["C01_", "X_Harness"])],
     "C02": [(codec.C02, ["C02_", "X_Harness"])],
     "C11": [(codec.C11, ["C11_", "X_Harness"])],
-    "C04": [(chan.C04, ["C04_", "C13_NoCrash"])],
+    "C04": [(chan.C04, ["C04_", "C13_NoCrash"]), (transport, ["C04_Transport"])],
     "C05": [(pending, ["C05_"])],
-    "C13": [(chan.C13, ["C13_"])],
+    "C13": [(chan.C13, ["C13_"]), (transport, ["C13_Transport"])],
     "C12": [(tcp_stream.C12, ["C12_"])],
     "C17": [(chan.C17, ["C17_", "C13_NoCrash"])],
     "C18": [(srvlife, ["C18_"])],
@@ -35,6 +35,11 @@ PROPS = {
 }
 
 ASSUME = {
+    "transport": [
+        "TLC enumerates every sequence of up to 4 (thorough: 5) operations send / receive / close / connected on either end of a pair, for the in-process transport with capacities 0, 1, 2 and for TCP and WebSocket (quick tier: a seeded sample of 1200 socket sequences each), and checks the contract operators on the model",
+        "operations are executed one at a time with 10 ms for the loopback network to settle and 70 ms deadlines; sequences that close a socket end with unread input are not generated (open finding F-C13-7)",
+        "TLC, CommunityModules Json, the Go runtime and gorilla/websocket are trusted",
+    ],
     "blocking": [
         "TLC checks the wait automaton of every operation x transport x deadline/cancel x moment against the bound the property states; each case is then timed on the real operation against a peer that makes no progress (silent, or not reading with full buffers)",
         "latencies are wall-clock: a slack of 1 s absorbs scheduling noise (the violations at stake are whole poll intervals or hangs); a call not back 4 s after its bound is recorded as hanging; encoding time of a large envelope is kept out of the measure by ending the context after the writer is parked",
@@ -183,7 +188,9 @@ def replay(path):
     with open(path) as f:
         rp = json.load(f)
     pid = rp["property"]
-    eng, prefixes = [(e, p) for e, p in PROPS[pid] if e.__name__.endswith(rp["engine"].replace("-", "_"))][0]
+    module = {"channel": "chan", "server-life": "srvlife", "client-life": "clientlife"}.get(
+        rp["engine"], rp["engine"].replace("-", "_"))
+    eng, prefixes = [(e, p) for e, p in PROPS[pid] if e.__name__.endswith("." + module)][0]
     with vlib.Scratch("replay") as scratch:
         drv = vlib.build_driver(scratch)
         res = eng.run("quick", scratch, drv, only_cases=[rp["case"]])
